@@ -25,7 +25,7 @@ const REVISION_OFFSET: usize = SIGNATURE_LENGTH; // 10
 /// copying large payloads for io-uring zero-copy writes.
 const FLAT_THRESHOLD: usize = 16 * 1024; // 16 KiB
 /// Maximum number of frames a `FrameBatch` (one logical multipart message) can hold.
-const MAX_FRAMES_PER_MESSAGE: usize = 255;
+const MAX_FRAMES_PER_MESSAGE: usize = crate::message::MAX_WIRE_FRAMES_PER_MESSAGE;
 /// Handshake frames (security tokens, READY, the ZMTP/2.0 identity frame) are not application messages:
 /// a MAXMSGSIZE smaller than this must not make the handshake itself impossible.
 const HANDSHAKE_FRAME_LIMIT: i64 = 8 * 1024;
